@@ -16,7 +16,7 @@ ITEM_HARNESS = {
     'types::Token::get_src_col': ['lookup'], 'types::SourceMap::tokens': ['lookup'],
     'types::SourceMap::new': ['ordering', 'lookup'], 'builder::SourceMapBuilder::into_sourcemap': ['ordering', 'builder_model'],
     'builder::SourceMapBuilder::add_with_id': ['ordering', 'builder_model'], 'builder::SourceMapBuilder::add_raw': ['ordering'], 'builder::SourceMapBuilder::add': ['ordering', 'builder_model'],
-    'builder::SourceMapBuilder::add_source_with_id': ['builder_model', 'rewrite'], 'builder::SourceMapBuilder::add_source': ['builder_model'], 'builder::SourceMapBuilder::add_name': ['builder_model'],
+    'builder::SourceMapBuilder::add_source_with_id': ['builder_model', 'rewrite'], 'builder::SourceMapBuilder::add_source': ['builder_model'], 'builder::SourceMapBuilder::add_name': ['builder_model'], 'builder::SourceMapBuilder::add_to_ignore_list': ['builder_model'],
     'builder::SourceMapBuilder::set_source_contents': ['builder_model', 'rewrite'], 'builder::SourceMapBuilder::get_source_contents': ['builder_model'],
     'builder::SourceMapBuilder::add_token': ['rewrite'], 'builder::SourceMapBuilder::take_mapping': ['hermes_rewrite'],
     'decoder::StripHeaderReader::strip_head_read': ['header'], 'decoder::StripHeaderReader::read': ['header'], 'decoder::strip_junk_header': ['header'],
